@@ -13,7 +13,9 @@
      lexer goes on with `skipn n r`); nat is used only for these lengths and for fuel;
    * whitespace is a one-byte item of kind KWs and a comment is an item of kind KCom: the Rust lexer
      skips both before/inside next_token, and substitute_parameters copies every byte that is not
-     inside a Parameter token, so nothing is lost by making them items;
+     inside a Parameter token, so nothing is lost by making them items (since d86c1b1 next_token
+     skips comments in a loop before the dispatch instead of recursing from scan_minus / scan_slash:
+     the same token stream, and the same items here);
    * keyword lookup is not modelled (keywords and identifiers are both KId);
    * `depth` of scan_block_comment is an i32 in Rust; it cannot overflow on inputs shorter than 4 GiB
      and is a nat here;
